@@ -1,15 +1,16 @@
 #!/bin/sh
-# usage: seed_wave.sh <root e.g. /tmp/mut3> <id prefix e.g. w4>    re-verify one wave against own checks (4 lanes)
+# usage: seed_wave.sh <root e.g. /tmp/mut3> <id prefix e.g. w4>    re-verify one wave against own checks (5 lanes x 3 workers)
 root="$1"; pre="$2"
 cd /verif
 lane() {
   for p in "$@"; do
-    for d in $root/out/$p/m*; do [ -d "$d" ] && VERIF_WORKERS=4 python3 tools/seed_verify.py $d $root/$p $p-$pre$(basename $d); done
+    for d in $root/out/$p/m*; do [ -d "$d" ] && VERIF_WORKERS=3 python3 tools/seed_verify.py $d $root/$p $p-$pre$(basename $d); done
   done
 }
-lane C01 C02 C03 C04 C05 > /tmp/w/wave_${pre}_1.log 2>&1 &
-lane C06 C07 C08 C09 C10 > /tmp/w/wave_${pre}_2.log 2>&1 &
-lane C11 C12 C13 C14 C15 > /tmp/w/wave_${pre}_3.log 2>&1 &
-lane C16 C17 C18 C19 C20 > /tmp/w/wave_${pre}_4.log 2>&1 &
+lane C01 C05 C09 C13 > /tmp/w/wave_${pre}_1.log 2>&1 &
+lane C02 C06 C10 C14 > /tmp/w/wave_${pre}_2.log 2>&1 &
+lane C03 C07 C11 C15 > /tmp/w/wave_${pre}_3.log 2>&1 &
+lane C04 C08 C12 C16 > /tmp/w/wave_${pre}_4.log 2>&1 &
+lane C17 C18 C19 C20 > /tmp/w/wave_${pre}_5.log 2>&1 &
 wait
 cat /tmp/w/wave_${pre}_*.log | grep -E "^C[0-9]+-" | sort
